@@ -39,7 +39,7 @@ def r_C01visitors(root):
         def new_attr(clazz, name, cls=None, mult=None, cont=True, ref=False, bool_assignment=False, position=0):
             a = HS({".kind": "metaattr", ".name": name, ".cls": cls, ".mult": M1 if mult is None else mult, ".cont": cont, ".ref": ref, ".bool_assignment": bool_assignment, ".position": position, ".scope_provider": None, ".match_rule_name": None})
             clazz["._tx_attrs"][name] = a; return a
-        mm = HS({".kind": "metamodel", ".file_name": "g.tx", "._new_cls_attr": pyeval.PyFn(new_attr), ".autokwd": AUTOKWD[0], ".ignore_case": False, ".skipws": True, ".ws": " \t", ".debug": False, ".memoization": False})
+        mm = HS({".kind": "metamodel", ".file_name": "g.tx", ".referenced_languages": {}, "._new_cls_attr": pyeval.PyFn(new_attr), ".autokwd": AUTOKWD[0], ".ignore_case": False, ".skipws": True, ".ws": " \t", ".debug": False, ".memoization": False})
         v = HS({".kind": "visitor", ".debug": False, ".metamodel": mm, "._current_cls": cls, ".grammar_parser": {".pos_to_linecol": pyeval.PyFn(lambda p_: (1, p_)), ".debug": False}, ".dprint": pyeval.PyFn(lambda *a: None)})
         return v, cls
     CTORS = exprs.ctor_env()
@@ -222,7 +222,8 @@ def r_C01visitors(root):
     rrel_s = HS({".kind": "rrel tree"})
     MODCTORS = {"_": exprs.type_of("RegExMatch"), "RegExMatch": exprs.type_of("RegExMatch"), "StrMatch": exprs.type_of("StrMatch"), "OrderedChoice": exprs.type_of("OrderedChoice"), "Sequence": exprs.type_of("Sequence")}       # for the module-level tables of lang.py (BASE_TYPE_RULES ...)
     RX = pyeval.PyFn(lambda rule_name, cls=None, position=0, scope_provider=None, *a_, **k_: HS({".kind": "RuleCrossRef", ".rule_name": rule_name, ".cls": cls, ".position": position, ".scope_provider": scope_provider, ".suppress": False}))
-    for kids_, want_ in ((["Target"], ("ID", "Target", None)), (["Target", "|", "FQN"], ("FQN", "Target", None)), (["Target", "|", "FQN", rrel_s], ("FQN", "Target", rrel_s))):
+    for kids_, want_ in ((["Target"], ("ID", "Target", None)), (["Target", "|", "FQN"], ("FQN", "Target", None)), (["Target", "|", "FQN", rrel_s], ("FQN", "Target", rrel_s)),
+                         (["lib.Target"], ("ID", "lib.Target", None)), (["base.lib.Target", "|", "FQN"], ("FQN", "base.lib.Target", None))):        # a class of an imported grammar, referred to by its qualified name
         v, _c = new_visitor()
         f_, ps_ = method("visit_obj_ref")
         env_ = dict(consts); env_.update({"__functions__": fns, "__classes__": exprs.classes_env(), "__module__": t, ps_[0]: v, ps_[1]: node, ps_[2]: list(kids_), "RuleCrossRef": RX, "TextXSemanticError": errs("TextXSemanticError")})
@@ -232,7 +233,7 @@ def r_C01visitors(root):
         except pyeval.Unsupported as u_: raise AnalysisError("visit_obj_ref: outside the evaluated subset: %s" % u_)
         x_ = r[1][1] if r[0] == "ret" and isinstance(r[1], tuple) and len(r[1]) == 2 else None
         okl = r[0] == "ret" and isinstance(r[1], tuple) and r[1][0] == "obj_ref" and isinstance(x_, dict) and (x_.get(".rule_name"), x_.get(".cls"), x_.get(".scope_provider")) == want_[:3] and x_.get(".scope_provider") is want_[2] and x_.get(".position") == node[".position"]
-        rep("C32.h", "visit_obj_ref", "[%s]" % "".join(k_ if isinstance(k_, str) else "<rrel>" for k_ in kids_), okl, "the link  [%s]  becomes %s; documented: a reference to class %s matched by rule %s with %s, at the link's position" % ("".join(k_ if isinstance(k_, str) else "<rrel>" for k_ in kids_), (("a reference to class %r matched by %r with %s" % (x_.get(".cls"), x_.get(".rule_name"), "the RREL tree" if x_.get(".scope_provider") is rrel_s else x_.get(".scope_provider"))) if isinstance(x_, dict) else desc(r)), want_[1], want_[0], "the RREL tree written in the link" if want_[2] is not None else "no RREL tree"), props_=("C32", "C11", "C01"))
+        rep("C32.h", "visit_obj_ref", "[%s]" % "".join(k_ if isinstance(k_, str) else "<rrel>" for k_ in kids_), okl, "the link  [%s]  becomes %s; documented: a reference to class %s matched by rule %s with %s, at the link's position" % ("".join(k_ if isinstance(k_, str) else "<rrel>" for k_ in kids_), (("a reference to class %r matched by %r with %s" % (x_.get(".cls"), x_.get(".rule_name"), "the RREL tree" if x_.get(".scope_provider") is rrel_s else x_.get(".scope_provider"))) if isinstance(x_, dict) else desc(r)), want_[1], want_[0], "the RREL tree written in the link" if want_[2] is not None else "no RREL tree"), props_=("C32", "C11", "C01") + (("C25",) if "." in kids_[0] else ()))
     for prim in ("INT", "STRING", "ID"):
         v, _c = new_visitor()
         r = call("visit_obj_ref", v, node, [prim])
@@ -261,6 +262,8 @@ def r_C01visitors(root):
     news = [e_ for e_ in ev if e_[0] == "new"]
     okr = r == ("ret", "Thing") and len(news) == 1 and not [e_ for e_ in ev if e_[0] == "init"] and news[0][1][:1] == ("Thing",) and kind_ok(news[0][2]) and len(news[0][1]) <= 3 and vr_["._current_cls"] is generic and mmr[".rootcls"] is generic
     rep("C03.o", "visit_rule_name", "no user class", okr, "for the rule Thing without a user class visit_rule_name %s after %s; documented: one new class named Thing (a match rule until its body says otherwise) that becomes the current and, if first, the root class" % (desc(r), [(e_[0], list(e_[1]), e_[2]) for e_ in ev]), props_=("C03", "C14"))
+    r, ev, mmr, vr_, generic = rule_name_case({}, pyeval.PyFn(lambda n_: UC if n_ == "Thing" else None), used=("Thing",))
+    rep("C03.o", "visit_rule_name", "a user class from a provider for a rule name that was bound before", r == ("raise", "TextXSemanticError") and not [e_ for e_ in ev if e_[0] in ("init", "new")], "a second rule named Thing (an imported rule redefined) with a user class handed out by a provider callable %s after %s; documented TextXSemanticError before any class is touched" % (desc(r), [e_[0] for e_ in ev]), props_=("C03", "C14", "C25"))
     r, ev, mmr, vr_, generic = rule_name_case({"Thing": UC}, None, used=("Thing",))
     rep("C03.o", "visit_rule_name", "a user class for a rule name that was bound before", r == ("raise", "TextXSemanticError") and not ev, "a second rule named Thing (an imported rule redefined) with a user class %s; documented TextXSemanticError before any class is touched" % desc(r), props_=("C03", "C14", "C25"))
     return inst, out
